@@ -1,5 +1,6 @@
 import Gocc.Driver.Unit
 import Gocc.Driver.Gram
+import Gocc.Model.FScan
 open Gocc.Driver
 
 structure DState where
@@ -40,6 +41,9 @@ def dispatch (st : DState) (line : String) : DState × String :=
   | "lexeq" :: args => (st, withArt st args fun a _ => some (opLexEq a))
   | "parse" :: args => (st, withArt st args opParse)
   | "feparse" :: args => (st, (opFeParse args).getD "bad-op")
+  | "fescan" :: args => (st, match nats args with
+      | some bs => Gocc.fscanShow bs
+      | none => "bad-op")
   | "c08oracle" :: args => (st, (c08Oracle args).getD "bad-op")
   | op :: args =>
     match unitOp op args with
